@@ -9,6 +9,7 @@ from obj_lib import *
 
 PROPS = "Props/C09"
 KIND = {"1b": "tl1_valid", "1r": "tl1_valid", "2": "tl2", "j": "json"}
+BYTES_NS = ("ch_proxy.", "ab.", "memcache.")     # namespaces generated with --generateByteVersions in the goldmaster unit
 
 
 def hx(b):
@@ -56,7 +57,7 @@ def run(ctx):
     st = family_setup(ctx, PROPS, n_random=5 if quick else 40, tl2_random=False, objx_random=2 if quick else 12)
     nhist = 6 if quick else 80
     stats = {"schemas": 0, "types": 0, "histories": 0, "steps": 0, "steps_tl1_valid": 0, "steps_tl1_mutated": 0, "steps_tl2": 0, "steps_json": 0,
-             "steps_truncated_tl2_json": 0, "steps_reset": 0, "steps_after_failed_decode": 0, "kernel_rejected": 0, "model_compared_steps": 0,
+             "steps_truncated_tl2_json": 0, "steps_json_field_absent": 0, "steps_reset": 0, "steps_after_failed_decode": 0, "kernel_rejected": 0, "model_compared_steps": 0,
              "go_fillrandom_values": 0, "budget_skips": 0}
     mism, bad, samples, unit_errors = [], [], [], []
     distinct = set()     # distinct histories in which a successful decode is followed by at least one more step
@@ -139,6 +140,17 @@ def run(ctx):
                         ml.append(f"hist {tid} {san} {rfuel} " + " ".join(steps))
                         kinds.append(ks)
                         s_["histories_wide_alternating"] = s_.get("histories_wide_alternating", 0) + 1
+            # JSON documents with one top-level field ABSENT (the reader must then default it: ReadJSONGeneral(jctx, nil, ...) for
+            # types with nat arguments), right after a step that filled every field
+            fm = ["1b", "j"] + (["2"] if has_tl2(name) else [])
+            if x["kind"] == "struct" and x["fields"]:
+                nf = len(x["fields"])
+                for k in rng.sample(range(nf), min(nf, 6 if quick else 12)):
+                    fa = rng.choice(fm)
+                    steps = [f"{fa}:{rng.choice(pool[tid][1])}", f"jo{k}:{rng.choice(pool[tid][1])}", f"jo{(k + 1) % nf}:{rng.choice(pool[tid][1])}"]
+                    gl.append(f"ohist {name} " + " ".join(steps))
+                    ml.append(f"hist {tid} {san} {rfuel} " + " ".join(steps))
+                    kinds.append([KIND[fa], "json_field_absent", "json_field_absent"])
             for _ in range(nhist):
                 steps, ks = [], []
                 failed_before = False
@@ -166,6 +178,14 @@ def run(ctx):
                 gl.append(f"ohist {name} " + " ".join(steps))
                 ml.append(f"hist {tid} {san} {rfuel} " + " ".join(steps))
                 kinds.append(ks)
+        if any("--generateByteVersions" in o for o in u.options):
+            nb = len(gl)
+            for j in range(nb):
+                if gl[j].split(" ")[1].startswith(BYTES_NS):
+                    gl.append("ohistb" + gl[j][len("ohist"):])
+                    ml.append(ml[j])
+                    kinds.append(kinds[j])
+                    s_["histories_bytes_version"] = s_.get("histories_bytes_version", 0) + 1
         go = run_lines_resilient(u.gen.exe, [], gl, timeout=900, max_restarts=20)
         rc, mo, err = run_lines_e(st.ref, margs, ml, timeout=900)
         if rc != 0 or len(mo) != len(ml) or len(go) != len(gl):
@@ -220,13 +240,14 @@ def run(ctx):
     family_report(
         ctx, st, PROPS, ["Prim"], "corr:C09:reuse", mism, bad, unit_errors, stats, samples,
         rule="non-trivial = distinct histories in which a successful decode is followed by at least one more step; per schema (repository + random schemas), per top-level object: histories of 2..6 steps applied to ONE generated object and, step by step, to fresh objects: "
-             "valid TL1 (boxed/bare; from the model writer on type-directed values and from Go FillRandom), mutated TL1, the same values converted by Go to TL2 / JSON, truncated TL2/JSON, Reset; "
+             "valid TL1 (boxed/bare; from the model writer on type-directed values and from Go FillRandom), mutated TL1, the same values converted by Go to TL2 / JSON, truncated TL2/JSON, JSON documents with one top-level field absent, Reset; "
              "oracle: verdict and all three re-encodings (TL1, JSON, TL2) of the reused object equal those of the fresh object after every step, Reset object writes like a new object; "
              "correspondence: verdict, consumed length and TL1 re-encoding of every TL1 / Reset step equal the extracted model (dinto / oreset / oenc) run over the same history",
         trusted=["translator overlay/internal/puregen/gengo/verif_objdump_test.go (real generator front half -> schema IR) and lib/schema_ir.py (IR file writer)",
                  "extraction ExtrOcamlBasic only; ocaml/conv.ml, ocaml/tl1/schema_io.ml, ocaml/obj/xschema_io.ml, ocaml/drv_obj.ml",
                  "Go harness harness/go/gendrv (ops_obj.go: ohist; Reset through reflection); comparison in lib/checks/C09.py"],
         assumptions=["64-bit platform", "the templates are modelled, not verified: agreement shown on the listed schemas x histories",
+                     "bytes-version objects (CreateObjectBytes) are exercised for the namespaces the goldmaster unit generates them for",
                      "TL2 and JSON readers are covered by the Go-side oracle only (the Coq model is TL1-level): partial",
-                     "bytes-version objects (CreateObjectBytes) are not exercised"],
+                     ],
         extra={"evaluations": stats["steps"], "distinct_nontrivial": len(distinct)})
